@@ -28,6 +28,7 @@ RULE = (
     "suppresses something in the same map)"
 )
 ASSUMPTIONS = [
+    "history part: all ordered pairs (thorough: triples) of a small call alphabet chosen to collide in every shape-like cache key, each history in a forked child, compared with a fresh-process result",
     "bounded scope: 'all float maps' = all maps with h,w <= 3 (plus 1xN/Nx1 strips N<=5; thorough: 3x4, 4x3 over 3 levels and 4x4 over 2 levels) over <= 5 value levels {-1,0,0.3,0.5,1}, plus structured larger maps (3x3 enumerations embedded in 5x5/7x7 zero maps, one/two Gaussian bumps on 5x5 and 7x7)",
     "thresholds {-2, 0, 0.3, 0.5} are passed as the float64 value of their float32 rounding, so that 'value == threshold' ties are exact in the maps' dtype (float32)",
     "refinement displacement bound is asserted on the domain where it exists mathematically: non-negative map and positive peak value (regression weights form a convex combination); 'half a patch' is read as the half-extent (patch-1)/2 of the patch's cell-centre grid, +1e-5 float32 slack; outside that domain only count/order/indices/values are asserted and the cases are counted (refine_outside_domain)",
@@ -494,8 +495,49 @@ def plan(tier):
     return items
 
 
+FN_NAME = "find_local_peaks"
+
+
+def history_calls():
+    """Calls that collide in batch shape / patch size / threshold in different combinations."""
+    import numpy as np
+
+    out = []
+    rng_maps = {}
+    for (s, c, h, w) in [(2, 3, 5, 5), (1, 3, 7, 5), (3, 1, 5, 7)]:
+        yy, xx = np.mgrid[0:h, 0:w].astype(np.float64)
+        m = np.zeros((s, c, h, w), dtype=np.float32)
+        for i in range(s):
+            for j in range(c):
+                cx, cy = 1.3 + 0.9 * j + 0.4 * i, 1.6 + 0.7 * i + 0.3 * j
+                m[i, j] = np.exp(-((xx - cx) ** 2 + (yy - cy) ** 2) / 2.0) + 0.6 * np.exp(-((xx - (w - 1.4)) ** 2 + (yy - (h - 1.7 - 0.2 * j)) ** 2) / 1.5)
+        rng_maps[(s, c, h, w)] = m
+    for shape, m in rng_maps.items():
+        for patch in (None, 3, 4, 5):
+            for thr in ((0.2, 0.7) if patch == 5 else (0.2,)):
+                out.append((f"%s(shape={shape},patch={patch},thr={thr})" % FN_NAME, {"maps": m, "patch": patch, "thr": thr}))
+    return out
+
+
+def history_run(entry):
+    import torch
+
+    from sleap_nn.inference import peak_finding as pf
+
+    c = entry[1]
+    t = torch.from_numpy(c["maps"].copy())
+    fn = getattr(pf, FN_NAME)
+    if c["patch"] is None:
+        return list(fn(t, threshold=c["thr"], refinement=None))
+    return list(fn(t, threshold=c["thr"], refinement="integral", integral_patch_size=c["patch"]))
+
 def run(ctx):
     core.setup_torch()
+    # E2 part first (the parent has not called the functions yet): every ordered pair / triple of a small call alphabet
+    # in forked children, each result compared with the same call in a fresh process (history-dependent state)
+    from mc import history as _history
+
+    _history.search(ctx, history_calls(), history_run, depth=2 if ctx.tier == "quick" else 3)
     self_check()
     jobs = []
     bounds = []
@@ -515,6 +557,11 @@ def run(ctx):
 
 
 def replay(case):
+    if isinstance(case, dict) and case.get("kind") == "history":
+        core.setup_torch()
+        from mc import history as _history
+
+        return _history.replay(case, history_calls(), history_run)
     core.setup_torch()
     import torch
     from sleap_nn.inference import peak_finding as pf
